@@ -12,23 +12,27 @@ from lib import configs, framework as fw, layout, qconv, runner
 META = {
     'props': 'Props/C12.v',
     'claimed': True,
-    'level_text': ('Proof about a model of GeoPHIRESUtils.read_input_file over strings of code points 0..255 (text-mode newline decoding, '
-                   'readlines, strip, comment prefixes, split, ParameterEntry, insertion-ordered dict): 16 axiom-free Coq theorems, for every '
-                   'list of lines and every string - a lookup returns the last line carrying the name; lookups are invariant under every '
-                   'permutation of distinct-name lines and under every rearrangement that keeps the occurrences of a name in order; blank, '
-                   'comma-less and #/--/* lines are ignored; any whitespace around name and value and any trailing comment leave name and '
-                   'value unchanged; LF/CRLF/CR files with or without final terminator read as the same lines; key iteration order of any '
-                   'class of names (the add-on block) depends only on the order of that class; the overrides appended by '
+    'level_text': ('Proof about a model of GeoPHIRESUtils.read_input_file on the BYTES of the file: strict UTF-8 decoding (errors = error for the '
+                   'whole file) into a text of Unicode code points, then text-mode newline decoding, readlines, strip with the full str.isspace() '
+                   'table (29 code points incl. U+00A0, U+2003, U+3000), comment prefixes, split, ParameterEntry, insertion-ordered dict: 19 '
+                   'axiom-free Coq theorems, for every list of lines and every text - a lookup returns the last line carrying the name; lookups '
+                   'are invariant under every permutation of distinct-name lines and under every rearrangement that keeps the occurrences of a '
+                   'name in order; blank, comma-less and #/--/* lines are ignored; any Unicode whitespace around name and value and any trailing '
+                   'comment leave name and value unchanged; LF/CRLF/CR files with or without final terminator read as the same lines; key '
+                   'iteration order of any class of names (the add-on block) depends only on the order of that class; the overrides appended by '
                    'GeophiresInputParameters govern for every base text (code after fix e85b257; the pre-fix append is kept as '
-                   'client_text_pinned with its refutation, witness in corpus/C12). The downstream pipeline is '
+                   'client_text_pinned with its refutation, witness in corpus/C12); every encodable text read from its UTF-8 bytes is read as '
+                   'that text (C12_utf8_file) and a byte that can start no character anywhere makes the file an error (C12_decode_error); the '
+                   'whitespace set is exactly the 29-point table compared with the interpreter on each run. The downstream pipeline is '
                    'covered by a table of every use of InputParameters regenerated from the source (all order-blind except the add-on '
-                   'block: C12_lookup_only) plus whole runs of permuted/decorated/duplicated variants compared report against report; it '
-                   'is tied, not proved.'),
-    'level_note': ('Trusted: Coq kernel + vm_compute; the Python harness; the ast classifier of tools/gen/input_param_uses.py. Code points '
-                   '>= 256 are outside the model (UTF-8 decoding itself is not modelled). Whole-run invariance of the modules is sampled, '
-                   'not proved.'),
+                   'block: C12_lookup_only) plus whole runs of permuted/decorated/duplicated variants and client requests with parameters '
+                   'moved into the params dict, compared report against report; it is tied, not proved.'),
+    'level_note': ('Trusted: Coq kernel + vm_compute; the Python harness; the ast classifier of tools/gen/input_param_uses.py. Whole-run '
+                   'invariance of the modules is sampled, not proved. A UTF-8 byte-order mark is not whitespace for Python: the first '
+                   'parameter of a file saved with BOM is read under the name U+FEFF+name (modelled faithfully, corpus/C12/tok_bom.txt).'),
     'technique': 'Coq proof about an executable Gallina model + kernel-evaluated correspondence with the implementation',
-    'rule': ('(a) random files over an alphabet of names, values, 12 whitespace code points, comment prefixes, commas, latin-1 letters, '
+    'rule': ('(a) random files (as bytes) over an alphabet of names, values, all 29 whitespace code points, comment prefixes, commas, latin-1 / CJK / '
+             'astral letters, BOM, plus corrupted encodings (stray, truncated, overlong, surrogate, latin-1 bytes), '
              'three line-ending styles, duplicates: the real read_input_file dictionary (keys in order, Name, sValue, Comment, raw_entry) '
              'must equal the model\'s, compared inside Coq; (b) metamorphic variants (perm, ws, comment, dup, eol, all) of distinct-name '
              'parameter lists through the real tokenizer; (c) client override files (text) and (e) client runs with parameters moved into the params dict in two orders, duplicates left in the base file; (d) whole runs of the six variant classes of example '
@@ -39,10 +43,10 @@ META = {
                      'hand-written models coq/Model/UTokenizer.v + coq/Model/Utf8.v tied to GeoPHIRESUtils.read_input_file (on file BYTES) and '
                      'GeophiresInputParameters by byte-exact correspondence evaluated in the kernel',
                      'tools/gen/input_param_uses.py (ast classifier, unverified Python, fail-closed)'],
-    'modelled': ['GeoPHIRESUtils.read_input_file', 'str.strip / str.split / str.startswith on code points < 256',
+    'modelled': ['GeoPHIRESUtils.read_input_file', 'UTF-8 decoding (strict)', 'str.strip / str.split / str.startswith on Unicode code points',
                  'io text-mode universal newlines + readlines', 'dict insertion order / replacement',
                  'geophires_x_client.GeophiresInputParameters (file text only)'],
-    'assumptions': ['UTF-8 decoding and code points >= 256 are not modelled (such characters never occur in parameter names)',
+    'assumptions': [
                     'order-blindness of the modules rests on the regenerated use-site table and on sampled whole runs'],
     'fingerprint': [('src/geophires_x/GeoPHIRESUtils.py', 'read_input_file'),
                     ('src/geophires_x_client/geophires_input_parameters.py', 'GeophiresInputParameters.__init__')],
